@@ -289,6 +289,103 @@ theorem phase_end {cfg : Cfg} {e0 : α} {T : Nat} {c : α} {base : List (Nat × 
         omega
     exact ⟨hd, ho, by rw [← h.inv.deb_none hd, ho]⟩
 
+/-! ### after a notification (or tick) that was handled once the file had stopped changing
+
+`B` bounds the pending debounce: the loop has fingerprinted the final content (`observed = file`). -/
+
+structure Settled (cfg : Cfg) (e0 : α) (c : α) (B : Nat) (s : St α) : Prop where
+  file_eq : s.file = c
+  inv     : Inv cfg e0 s
+  obs     : s.observed = c
+  deb_le  : ∀ d, s.deb = some d → d ≤ B
+
+theorem reconcile_observed (cfg : Cfg) (s : St α) : (reconcile cfg s).observed = (reconcile cfg s).file := by
+  unfold reconcile
+  split
+  · rename_i h; exact h.symm
+  · rfl
+
+theorem settled_start {cfg : Cfg} {e0 : α} {s : St α} (h : Inv cfg e0 s) (ho : s.observed = s.file) :
+    Settled cfg e0 s.file (s.now + cfg.D) s :=
+  ⟨rfl, h, ho, fun d hd => (h.deb_rng d hd).2⟩
+
+theorem reconcile_noop {cfg : Cfg} {s : St α} (h : s.file = s.observed) : reconcile cfg s = s := by
+  unfold reconcile; rw [if_pos h]
+
+theorem settled_step {cfg : Cfg} {e0 : α} {c : α} {B : Nat} {s s' : St α} {o : Op α}
+    (h : Settled cfg e0 c B s) (hw : o.isWrite = false)
+    (hs : step? .repaired cfg s o = some s') : Settled cfg e0 c B s' := by
+  have hinv' := inv_step h.inv hs
+  have hfo : s.file = s.observed := by rw [h.file_eq, h.obs]
+  cases o with
+  | write c' => simp [Op.isWrite] at hw
+  | event =>
+    simp only [step?] at hs
+    split at hs
+    · simp only [Option.some.injEq] at hs; subst hs
+      rw [reconcile_noop hfo]; exact h
+    · simp at hs
+  | other =>
+    simp only [step?] at hs
+    split at hs
+    · simp only [Option.some.injEq] at hs; subst hs; exact h
+    · simp at hs
+  | wclose =>
+    simp only [step?, Option.some.injEq] at hs; subst hs
+    exact ⟨h.file_eq, hinv', h.obs, h.deb_le⟩
+  | tick =>
+    simp only [step?] at hs
+    split at hs
+    · simp only [Option.some.injEq] at hs; subst hs
+      have : reconcile cfg { s with nextTick := s.nextTick + cfg.R, watcher := true } =
+          { s with nextTick := s.nextTick + cfg.R, watcher := true } := reconcile_noop hfo
+      rw [this] at hinv' ⊢
+      exact ⟨h.file_eq, hinv', h.obs, h.deb_le⟩
+    · simp at hs
+  | fire =>
+    simp only [step?] at hs
+    split at hs
+    · simp only [Option.some.injEq] at hs; subst hs
+      simp only [fire] at hinv' ⊢
+      rw [if_pos hfo] at hinv' ⊢
+      simp only [runCallback] at hinv' ⊢
+      split
+      · rename_i hoe
+        rw [if_pos hoe] at hinv'
+        exact ⟨h.file_eq, hinv', h.obs, by intro d hd; simp at hd⟩
+      · rename_i hoe
+        rw [if_neg hoe] at hinv'
+        exact ⟨h.file_eq, hinv', h.obs, by intro d hd; simp at hd⟩
+    · simp at hs
+  | wait d =>
+    simp only [step?] at hs
+    split at hs
+    · simp only [Option.some.injEq] at hs; subst hs
+      exact ⟨h.file_eq, hinv', h.obs, h.deb_le⟩
+    · simp at hs
+
+theorem settled_run {cfg : Cfg} {e0 : α} {c : α} {B : Nat} :
+    ∀ (ops : List (Op α)) {s s' : St α}, Settled cfg e0 c B s → (∀ o ∈ ops, o.isWrite = false) →
+      run? .repaired cfg s ops = some s' → Settled cfg e0 c B s'
+  | [], s, s', h, _, hr => by simp only [run?, Option.some.injEq] at hr; subst hr; exact h
+  | o :: os, s, s', h, hw, hr => by
+    simp only [run?] at hr
+    split at hr
+    · simp at hr
+    · rename_i s1 hs1
+      exact settled_run os (settled_step h (hw o (by simp)) hs1) (fun o' ho' => hw o' (by simp [ho'])) hr
+
+theorem settled_end {cfg : Cfg} {e0 : α} {c : α} {B : Nat} {s : St α}
+    (h : Settled cfg e0 c B s) (hlate : B < s.now) : s.deb = none ∧ s.evaluated = c := by
+  have hd : s.deb = none := by
+    cases hdd : s.deb with
+    | none => rfl
+    | some d =>
+      have h1 := h.deb_le d hdd
+      have h2 := (h.inv.deb_rng d hdd).1
+      omega
+  exact ⟨hd, by rw [← h.inv.deb_none hd, h.obs]⟩
+
 /-! ### the callback log as a list of contents -/
 
 theorem noAdjDup_snoc : ∀ (xs : List α) (a : α),
